@@ -52,6 +52,19 @@ func (e *ClientEnv) Write() error {
 	if err := w(client.ShortIDFile, id[:]); err != nil {
 		return err
 	}
+	// bin/gca-admin leaves the equipment authorization it submitted next to the
+	// other files (for later re-submission) and never rewrites it: the client
+	// does not use it. Written once, like the admin tool does; without the
+	// GCA's private key the signature bytes are arbitrary.
+	ap := filepath.Join(e.Dir, client.AuthorizationFile)
+	if _, err := os.Stat(ap); os.IsNotExist(err) {
+		a := refenc.Auth{ID: e.ShortID, Pub: e.Key.Pub, Lat: 38.123, Long: -77.456, Capacity: 12341234, Debt: 11223344, Expiration: 100000 + e.ShortID, Initialization: e.HistoryOrigin, Fee: 500}
+		copy(a.Sig[:], e.GCA[:])
+		copy(a.Sig[32:], e.Key.Pub[:])
+		if err := os.WriteFile(ap, a.JSON(), 0644); err != nil {
+			return err
+		}
+	}
 	hp := filepath.Join(e.Dir, client.HistoryFile)
 	if _, err := os.Stat(hp); os.IsNotExist(err) {
 		var o [4]byte
